@@ -6,6 +6,7 @@ import (
 	"path/filepath"
 	"sort"
 	"strings"
+	"sync"
 
 	"golang.org/x/tools/go/packages"
 	"golang.org/x/tools/go/ssa"
@@ -22,6 +23,7 @@ type Loaded struct {
 	files   map[string]string // virtual path -> real file (native replay view)
 	dir     string            // package dir relative to the repo root ("." for root)
 	pkgName string
+	dropped []string // harness files left out because they no longer type-check
 }
 
 var (
@@ -48,6 +50,11 @@ func envOr(k, d string) string {
 	return d
 }
 
+var (
+	droppedMu    sync.Mutex
+	droppedFiles = map[string]map[string]bool{} // package dir -> harness files left out
+)
+
 // harnessSources returns the harness files for a package dir: the shared
 // support file (package clause rewritten) plus /verif/harness/<dir>/*.go.
 func harnessSources(dir, pkgName string, withTest bool) (map[string][]byte, error) {
@@ -64,6 +71,12 @@ func harnessSources(dir, pkgName string, withTest bool) (map[string][]byte, erro
 		b, err := os.ReadFile(filepath.Join(hdir, en.Name()))
 		if err != nil {
 			return nil, err
+		}
+		droppedMu.Lock()
+		skipped := droppedFiles[dir]["zz_vp_"+en.Name()]
+		droppedMu.Unlock()
+		if skipped {
+			continue
 		}
 		out["zz_vp_"+en.Name()] = b
 	}
@@ -102,13 +115,50 @@ func pkgNameFor(dir string) string {
 // loadPackage loads repo package `dir` with the harness overlay and builds SSA
 // for it and all its dependencies (generics instantiated).
 func loadPackage(dir string) (*Loaded, error) {
+	// If some harness file no longer type-checks against the edited tree
+	// (e.g. it reaches into a representation that was refactored), drop that
+	// file and keep the harnesses that still compile; the caller reports the
+	// harnesses that disappeared as inconclusive.
+	var dropped []string
+	skip := map[string]bool{}
+	for attempt := 0; attempt < 6; attempt++ {
+		ld, bad, err := loadPackageOnce(dir, skip)
+		if err == nil {
+			ld.dropped = dropped
+			droppedMu.Lock()
+			droppedFiles[dir] = skip
+			droppedMu.Unlock()
+			return ld, nil
+		}
+		if len(bad) == 0 {
+			return nil, err
+		}
+		progress := false
+		for _, f := range bad {
+			if !skip[f] && f != "zz_vp_support.go" {
+				skip[f] = true
+				dropped = append(dropped, fmt.Sprintf("%s (%v)", f, err))
+				progress = true
+			}
+		}
+		if !progress {
+			return nil, err
+		}
+	}
+	return nil, fmt.Errorf("harness files of %s do not type-check", dir)
+}
+
+func loadPackageOnce(dir string, skip map[string]bool) (*Loaded, []string, error) {
 	pkgName := pkgNameFor(dir)
 	srcs, err := harnessSources(dir, pkgName, false)
 	if err != nil {
-		return nil, fmt.Errorf("reading harness sources: %w", err)
+		return nil, nil, fmt.Errorf("reading harness sources: %w", err)
 	}
 	overlay := map[string][]byte{}
 	for name, b := range srcs {
+		if skip[name] {
+			continue
+		}
 		overlay[filepath.Join(repoDir, dir, name)] = b
 	}
 	cfg := &packages.Config{
@@ -124,12 +174,20 @@ func loadPackage(dir string) (*Loaded, error) {
 	}
 	pkgs, err := packages.Load(cfg, pat)
 	if err != nil {
-		return nil, err
+		return nil, nil, err
 	}
 	var errs []string
+	badFiles := map[string]bool{}
 	packages.Visit(pkgs, nil, func(p *packages.Package) {
 		for _, e := range p.Errors {
 			errs = append(errs, e.Error())
+			// position is file:line:col
+			if i := strings.Index(e.Pos, ":"); i > 0 {
+				base := filepath.Base(e.Pos[:i])
+				if strings.HasPrefix(base, "zz_vp_") {
+					badFiles[base] = true
+				}
+			}
 		}
 	})
 	if len(errs) > 0 {
@@ -137,12 +195,17 @@ func loadPackage(dir string) (*Loaded, error) {
 		if len(errs) > 8 {
 			errs = errs[:8]
 		}
-		return nil, fmt.Errorf("package errors: %s", strings.Join(errs, "; "))
+		var bad []string
+		for f := range badFiles {
+			bad = append(bad, f)
+		}
+		sort.Strings(bad)
+		return nil, bad, fmt.Errorf("package errors: %s", strings.Join(errs, "; "))
 	}
 	prog, spkgs := ssautil.AllPackages(pkgs, ssa.InstantiateGenerics)
 	prog.Build()
 	if len(spkgs) == 0 || spkgs[0] == nil {
-		return nil, fmt.Errorf("no SSA package for %s", pat)
+		return nil, nil, fmt.Errorf("no SSA package for %s", pat)
 	}
-	return &Loaded{prog: prog, pkg: spkgs[0], overlay: overlay, dir: dir, pkgName: pkgName}, nil
+	return &Loaded{prog: prog, pkg: spkgs[0], overlay: overlay, dir: dir, pkgName: pkgName}, nil, nil
 }
